@@ -82,6 +82,24 @@ def castSem (p : Nat) : Bitcast → CVal → CVal
   | .seq a b, x => castSem p b (castSem p a x)
   | .none, x => x
 
+/-- the core type (at pointer width `p`) a primitive Bitcast expects its operand to have -/
+def castSrc (p : Nat) : Bitcast → Option FT
+  | .f32ToI32 | .f32ToI64 => some .f32
+  | .f64ToI64 => some .f64
+  | .i32ToI64 | .i32ToF32 | .i32ToP | .i32ToL => some .i32
+  | .i64ToF64 | .i64ToI32 | .i64ToF32 | .p64ToI64 | .i64ToP64 | .p64ToP | .i64ToL => some .i64
+  | .pToP64 | .pToI32 | .pToL | .lToP | .lToI32 | .lToI64 => some (ptrFT p)
+  | .seq _ _ | .none => none
+
+/-- typed application of a Bitcast: stuck (`none`) when the operand does not have the core type the
+cast converts from (a backend would emit an ill-typed or value-converting expression there) -/
+def castTyped (p : Nat) : Bitcast → CVal → Option CVal
+  | .seq a b, x => (castTyped p a x).bind (castTyped p b)
+  | c, x =>
+    match castSrc p c with
+    | none => some (castSem p c x)
+    | some t => if x.ty = t then some (castSem p c x) else none
+
 /-- canonical meaning of the scalar instructions -/
 def scalarSem : ScalarOp → MV → Option MV
   | .i32FromBool, .v (.bool b) => some (.c ⟨.i32, if b then 1 else 0⟩)
@@ -215,7 +233,7 @@ def eval (env : Env) (m : Mem) : Expr → Option MV
   | .base l => ((frameAt env l).base).map fun a => .c ⟨ptrFT env.p, a⟩
   | .i32 v => some (.c ⟨.i32, v⟩)
   | .zero t => some (.c ⟨t.erase env.p, 0⟩)
-  | .cast c e => (eval env m e).bind fun x => x.core?.map fun x => .c (castSem env.p c x)
+  | .cast c e => (eval env m e).bind fun x => x.core?.bind fun x => (castTyped env.p c x).map .c
   | .res k o args => ((env.lets.find? (·.1 == keyOf o args)).bind fun r => r.2[k]?)
   | .op o args blocks k =>
       (evalList env m args).bind fun xs =>
